@@ -154,4 +154,13 @@ func init() {
 			p.ruleFloatFormat(c)
 		},
 	})
+	register(&PropertyDef{
+		ID: "C10", Level: "other",
+		Explanation: "collections.",
+		Run: func(p *Program, c *Check) {
+			p.ruleCollectionFold(c)
+			p.ruleCollectionSearch(c)
+			p.ruleFolds(c)
+		},
+	})
 }
